@@ -1,0 +1,94 @@
+// Copyright ©2026 The Gonum Authors. All rights reserved.
+// Use of this source code is governed by a BSD-style
+// license that can be found in the LICENSE file.
+
+//go:build verif
+
+package f32
+
+// Machine-checked contracts for the kernels of this package (verification
+// hook, build tag verif; this file contains comments only). They mirror the
+// contracts of internal/asm/f64; see that file and /verif/DESIGN.md.
+
+//@ spec strided(s []float32, i0 int, n int, inc int) bool = n <= 0 || (0 <= i0 && i0 < len(s) && 0 <= i0+(n-1)*inc && i0+(n-1)*inc < len(s))
+
+//@ func AxpyUnitary props: C01(frame) C07(safety) C08
+//@ requires len(y) >= len(x)
+//@ writes y[k] for k in 0..len(x)
+
+//@ func AxpyUnitaryTo props: C01(frame) C07(safety) C08
+//@ requires len(y) >= len(x) && len(dst) >= len(x)
+//@ writes dst[k] for k in 0..len(x)
+
+//@ func AxpyInc props: C01(frame) C07(safety) C08
+//@ requires int(n) >= 0 && strided(x, int(ix), int(n), int(incX)) && strided(y, int(iy), int(n), int(incY))
+//@ writes y[int(iy)+k*int(incY)] for k in 0..int(n)
+
+//@ func AxpyIncTo props: C01(frame) C07(safety) C08
+//@ requires int(n) >= 0 && strided(x, int(ix), int(n), int(incX)) && strided(y, int(iy), int(n), int(incY))
+//@ requires strided(dst, int(idst), int(n), int(incDst))
+//@ writes dst[int(idst)+k*int(incDst)] for k in 0..int(n)
+
+//@ func DotUnitary DdotUnitary props: C01(frame) C07(safety) C08
+//@ requires len(y) >= len(x)
+//@ writes nothing
+
+//@ func DotInc DdotInc props: C01(frame) C07(safety) C08
+//@ requires int(n) >= 0 && strided(x, int(ix), int(n), int(incX)) && strided(y, int(iy), int(n), int(incY))
+//@ writes nothing
+
+//@ func ScalUnitary props: C01(frame) C07(safety) C08
+//@ writes x[k] for k in 0..len(x)
+
+//@ func ScalUnitaryTo props: C01(frame) C07(safety) C08
+//@ requires len(dst) >= len(x)
+//@ writes dst[k] for k in 0..len(x)
+
+//@ func ScalInc props: C01(frame) C07(safety) C08
+//@ requires int(n) >= 0 && strided(x, 0, int(n), int(incX))
+//@ writes x[k*int(incX)] for k in 0..int(n)
+
+//@ func ScalIncTo props: C01(frame) C07(safety) C08
+//@ requires int(n) >= 0 && strided(x, 0, int(n), int(incX)) && strided(dst, 0, int(n), int(incDst))
+//@ writes dst[k*int(incDst)] for k in 0..int(n)
+
+//@ func Sum props: C07(safety) C08
+//@ writes nothing
+
+//@ func L2NormUnitary props: C07(safety) C08
+//@ writes nothing
+
+//@ func L2NormInc props: C07(safety) C08
+//@ requires int(n) >= 0 && int(incX) >= 1 && strided(x, 0, int(n), int(incX))
+//@ writes nothing
+
+//@ func L2DistanceUnitary props: C07(safety) C08
+//@ requires len(y) >= len(x)
+//@ writes nothing
+
+//@ func Ger props: C01(frame) C07(safety) C08
+//@ requires int(m) >= 0 && int(n) >= 0 && int(lda) >= int(n) && int(lda) >= 1
+//@ requires m == 0 || len(a) >= int(lda)*(int(m)-1)+int(n)
+//@ requires int(incX) != 0 && int(incY) != 0
+//@ requires m == 0 || len(x) > (int(m)-1)*abs(int(incX))
+//@ requires n == 0 || len(y) > (int(n)-1)*abs(int(incY))
+//@ writes a[i*int(lda)+j] for i in 0..int(m), j in 0..int(n)
+
+//@ func GemvN props: C01(frame) C07(safety) C08
+//@ requires int(m) >= 0 && int(n) >= 0 && int(lda) >= int(n) && int(lda) >= 1
+//@ requires m == 0 || len(a) >= int(lda)*(int(m)-1)+int(n)
+//@ requires int(incX) != 0 && int(incY) != 0
+//@ requires n == 0 || len(x) > (int(n)-1)*abs(int(incX))
+//@ requires m == 0 || len(y) > (int(m)-1)*abs(int(incY))
+//@ let ky = ite(int(incY) < 0, -(int(m)-1)*int(incY), 0)
+//@ writes y[ky+k*int(incY)] for k in 0..int(m)
+
+//@ func GemvT props: C01(frame) C07(safety) C08
+//@ requires int(m) >= 0 && int(n) >= 0 && int(lda) >= int(n) && int(lda) >= 1
+//@ requires m == 0 || len(a) >= int(lda)*(int(m)-1)+int(n)
+//@ requires int(incX) != 0 && int(incY) != 0
+//@ requires m == 0 || len(x) > (int(m)-1)*abs(int(incX))
+//@ requires n == 0 || len(y) > (int(n)-1)*abs(int(incY))
+//@ let ky = ite(int(incY) < 0, -(int(n)-1)*int(incY), 0)
+//@ writes y[ky+k*int(incY)] for k in 0..int(n)
+
